@@ -1116,6 +1116,9 @@ class Interp:
                 for x_ in seq_:
                     acc_ = self.apply(args[0], [acc_, x_], env, depth)
                 return acc_
+            if nm == "repeat" and 1 <= len(args) <= 2 and nm not in env and (len(args) == 1 or (isinstance(args[1], int) and 0 <= args[1] <= 64)):
+                # itertools.repeat(x[, n]): the unbounded form is only ever consumed next to a finite sequence (zip, map with two iterables)
+                return [args[0]] * (args[1] if len(args) == 2 else 64)
             if nm == "pairwise" and len(args) == 1 and isinstance(args[0], list) and nm not in env:
                 return [[a_, b_] for a_, b_ in zip(args[0], args[0][1:])]
             if nm == "next" and 1 <= len(args) <= 2 and isinstance(args[0], list):
